@@ -304,6 +304,18 @@ fn e1_plan(prop: P, tier: &Tier) -> Vec<PlanItem> {
             v.push(item(Box::new(F9 { wide: false }), two_axes(), if q { 2 } else { 1 }));
             v.push(item(Box::new(F10), hint_masks(&[0, 8, 15]), 1));
             if prop == P::C04 {
+                // the conflict is rendered while the provider's cancellation flag is up (a deadline that
+                // passed between the solve and the report)
+                v.push(item(
+                    Box::new(Grid::f1().with_root(RootMenu::AnyVersion)),
+                    named(vec![("sync, cancellation raised before rendering", RunCfg { cancel_before_render: true, ..RunCfg::default() })]),
+                    1,
+                ));
+                v.push(item(
+                    f3(1, false),
+                    named(vec![("sync, cancellation raised before rendering", RunCfg { cancel_before_render: true, ..RunCfg::default() })]),
+                    1,
+                ));
                 v.push(item(
                     Box::new(Decorated::new_with("F5 soft skeletons", soft_skeletons(), f5k(q), false, &f5_filter)),
                     named(vec![("sync", sync_cfg()), ("sync hints=All", hint_cfg(Hint::All)), ("async-fifo", async_cfg(K_CANDS | K_DEPS, false))]),
@@ -437,7 +449,7 @@ pub fn run_e1(ctx: &Ctx, prop: P) -> i32 {
         let cfgs = &it.cfgs;
         let opts = SweepOpts {
             threads: threads(),
-            wall_limit_s: 10,
+            wall_limit_s: 30,
             on_stuck: Box::new({
                 let plan = plan.clone();
                 let prop_id = prop.id().to_string();
@@ -454,6 +466,7 @@ pub fn run_e1(ctx: &Ctx, prop: P) -> i32 {
                             }
                         }) {
                             eprintln!("NOTE: an execution exceeded the wall limit at family {f} index {idx} but finishes when run again alone (machine overloaded?); not a verdict");
+                            NOT_REPRODUCED.fetch_add(1, std::sync::atomic::Ordering::SeqCst);
                             return None;
                         }
                         Some(Violation {
@@ -835,6 +848,7 @@ fn generic_stuck(prop: String, fams: std::sync::Arc<Vec<(Box<dyn Family>, u64)>>
             let (c2, r2) = (case.clone(), recheck.clone());
             if finishes_within(900, move || r2(&c2)) {
                 eprintln!("NOTE: the exploration of family {f} index {idx} exceeded the wall limit but finishes when run again alone (machine overloaded?); not a verdict");
+                NOT_REPRODUCED.fetch_add(1, std::sync::atomic::Ordering::SeqCst);
                 return None;
             }
             Some(Violation {
